@@ -229,7 +229,7 @@ pub fn strategy(g: &GenCfg) -> BoxedStrategy<Case> {
                 }
                 actors.push(Actor { ctx, role: 1, ops });
             }
-            Case { fam: "park".into(), workers, pool, feat, cfg: vec![], actors, sched }
+            Case { fam: "park".into(), workers, pool, feat, cfg: vec![], actors, sched, weak: 0 }
         })
         .boxed()
 }
